@@ -1,7 +1,7 @@
-CONSTANTS NA = 4  Assets = {"nria", "alt", "big"}  BigCap = 3  Profile = "bridge"  MaxTxs = 2
-  LockVC = [nria |-> 21, alt |-> 20, big |-> 20]
+CONSTANTS NA = 4  Assets = {"nria", "alt", "big"}  BigCap = 3  Profile = "bridge"  MaxTxs = 1
 INIT Init
 NEXT Next
 INVARIANTS TypeOK
 PROPERTIES Conservation FeesExact FeesAccumulate FeesRouted DebitAuthorised PrivilegedChange Atomic NonceStep DepositsBacked WithdrawalOnce
+ACTION_CONSTRAINT LogStep
 CHECK_DEADLOCK FALSE
